@@ -163,16 +163,21 @@ def run_script(sc, sudachipy, dic=None, point=None, pretoks=None):
     stale = set()
     next_group = [0]
 
+    all_lists = []   # every list object of the script stays alive (ids are used as keys)
+
     def new_group(lst):
         next_group[0] += 1
         group_of[id(lst)] = next_group[0]
+        all_lists.append(lst)
         stale.discard(id(lst))
 
     def reused_as_out(lst):
+        # every list that ever shared this text becomes stale, also ones no slot refers to any more (an iterator or a
+        # Morpheme may still hold them)
         g = group_of.get(id(lst))
-        for s_ in slots:
-            if s_ is not None and s_[0] is not lst and group_of.get(id(s_[0])) == g:
-                stale.add(id(s_[0]))
+        for l_ in all_lists:
+            if l_ is not lst and group_of.get(id(l_)) == g:
+                stale.add(id(l_))
         stale.discard(id(lst))
     for k, op in enumerate(sc["ops"]):
         stats["ops"] += 1
@@ -261,6 +266,8 @@ def run_script(sc, sudachipy, dic=None, point=None, pretoks=None):
                 # the result refers to the parent's input (an untouched, cleared `out` keeps its own)
                 if out is None or len(res) > 0:
                     group_of[id(res)] = group_of.get(id(src[0]))
+                    if not any(l_ is res for l_ in all_lists):
+                        all_lists.append(res)
                     stale.discard(id(res))
                 stats["values"] += cmp_list(res, op["expect"], src[2], sudachipy)
                 slots[op["store"]] = (res, op["fill"], src[2])
